@@ -1,9 +1,13 @@
 """C16 — averaging learners report the sample statistics of exactly the data they hold.
 
-proof:  lean/AdaptiveProofs/Props/C16.lean over Avg.lean / Avg1D.lean (ordered fields)
+proof:  lean/AdaptiveProofs/Props/C16.lean over Avg.lean / Avg1D.lean (ordered fields) and
+        lean/AdaptiveProofs/Props/C16Full.lean over Avg1DFull.lean (the complete AverageLearner1D:
+        Learner1D loss machinery, distances, rescaled errors, all three branches of ask)
 tie:    AverageLearner and AverageLearner1D in lock-step with the same definitions at Float
-        (set-iteration choices and scipy.stats.t.ppf values are recorded oracles)
-search: statistics recomputed exactly with fractions.Fraction on the real objects
+        (set-iteration choices and scipy.stats.t.ppf values are recorded oracles); third correspondence:
+        real AverageLearner1D histories against the full model, bit for bit (harness/a1f_drive.py)
+search: statistics recomputed exactly with fractions.Fraction on the real objects; the ask rule and
+        rescaled_error = error / min neighbouring distance re-derived from the public state
 """
 from __future__ import annotations
 
@@ -18,7 +22,7 @@ import adaptive
 from harness import core
 from harness.core import f2b
 
-MODULES = ["AdaptiveProofs.Props.C16"]
+MODULES = ["AdaptiveProofs.Props.C16", "AdaptiveProofs.Props.C16Full"]
 
 
 def fb(x):
@@ -243,6 +247,99 @@ def a1_oracle(l, store, mins, trec):
     return None
 
 
+PARTIAL = [
+    "AverageLearner1D: no theorem about the VALUES of the inherited loss tables (losses / losses_combined) of the full "
+    "model; they are tied to the code by the bit-exact lock-step only (the three re-computation loops iterate the live "
+    "container, so Learner1D's C01 invariant does not transfer verbatim)",
+    "AverageLearner1D: the requested NEW abscissa is characterised as the point Learner1D's rule proposes on the inherited "
+    "state (C02's theorems about that rule are proved for Learner1D's own histories, not re-proved for these)",
+]
+
+
+# ------------------------------------------------------------------ AverageLearner1D, full model
+class _Real:
+    def __init__(self, fn):
+        self.real = fn
+
+
+def full_oracle(l, store, info, mins, real_ppf):
+    """the property's statement (and the documented ask rule) evaluated on the real object"""
+    f = a1_oracle(l, store, mins, _Real(real_ppf))
+    if f:
+        return f
+    inf = float("inf")
+    xs = sorted(l.data)
+    for x, v in l.rescaled_error.items():
+        i = xs.index(x)
+        ds = []
+        if i > 0:
+            ds.append(math.hypot(x - xs[i - 1], float(l.data[x]) - float(l.data[xs[i - 1]])))
+        if i + 1 < len(xs):
+            ds.append(math.hypot(xs[i + 1] - x, float(l.data[xs[i + 1]]) - float(l.data[x])))
+        want = inf if (not ds or l.error[x] == inf) else float(l.error[x]) / min(ds)
+        if not (v == want or abs(float(v) - want) <= 1e-9 * max(abs(want), abs(float(v)))):
+            return ("a1f_rescaled_error", f"rescaled_error[{x}] = {v}, error/min neighbouring distance = {want}")
+    if info.get("op") == "ask":
+        b, pts, n = info["before"], info["pts"], info["n"]
+        xs_req = {x for _, x in pts}
+        if len(pts) != n or len(xs_req) != 1:
+            return ("a1f_ask_shape", f"ask({n}) returned {pts}")
+        x = pts[0][1]
+        if b["under"]:
+            if x not in b["under"]:
+                return ("a1_request_not_undersampled", f"request went to x={x}, not an under-sampled abscissa, while {sorted(b['under'])} are")
+            low = {xx for xx, k in b["ns"].items() if k < mins}
+            if low and x not in low:
+                return ("a1_request_goes_to_low_count_abscissa",
+                        f"abscissae {sorted(low)} have fewer than min_samples={mins} samples but the request went to x={x} "
+                        f"which has {b['ns'].get(x)}")
+        else:
+            top = max((v for _, v in b["resc"]), default=None)
+            resample = b["ndata"] >= 2 and top is not None and top > l.delta
+            if resample:
+                if not (dict(b["resc"]).get(x) == top):
+                    return ("a1f_request_not_largest_rescaled_error", f"request went to x={x}; largest rescaled error {top}")
+                if b["ns"][x] >= l.max_samples and b["ns"][x] > 1:
+                    return ("a1f_request_beyond_max_samples", f"x={x} already has {b['ns'][x]} >= max_samples samples")
+            elif x in b["data"]:
+                return ("a1f_request_not_new", f"no abscissa is under-sampled, none exceeds delta, but the request went to the known x={x}")
+            if (x in b["data"]) and [s for s, _ in pts] != [b["ns"][x] + i for i in range(n)]:
+                return ("a1f_request_seeds", f"re-sampling request {pts} with {b['ns'][x]} samples held")
+    return None
+
+
+def full_case(case):
+    from harness import a1f_drive
+    store, fails = {}, []
+    real_ppf = scipy.stats.t.ppf
+
+    def hook(l, info):
+        for (seed, x), y in info.get("told", []):
+            store.setdefault(x, {}).setdefault(seed, y)
+        if len(fails) < 3:
+            f = full_oracle(l, store, info, case["min_samples"], real_ppf)
+            if f:
+                fails.append(f)
+
+    try:
+        r = a1f_drive.execute(case, hook)
+    except Exception as e:          # the real learner (or a recorded kernel) raised: a failing input, not infrastructure
+        import traceback
+        tb = traceback.extract_tb(e.__traceback__)
+        fr = [f for f in tb if "/adaptive/" in f.filename]
+        where = f"{fr[-1].filename.split('/adaptive/')[-1]}:{fr[-1].name}: {fr[-1].line}" if fr else "harness"
+        return {"lines": [], "impl": [], "stats": {"exception": 1}, "skipped": "exception", "tolerance_fail": None,
+                "fails": [("a1f_exception", f"{type(e).__name__}: {e} at {where}")], "meta": dict(case)}
+    r.pop("learner", None)
+    if r["tolerance_fail"]:
+        fails.append(("a1f_sqrt_hypot_tolerance", r["tolerance_fail"]))
+    # the literal-reading finding is reported once per case, after everything else
+    fails.sort(key=lambda f: f[0] == "a1_request_goes_to_low_count_abscissa")
+    r["fails"] = fails
+    r["meta"] = {k: v for k, v in case.items()}
+    return r
+
+
 def run(ctx):
     proof = core.prove(MODULES, leanchecker=ctx.thorough)
     trec = TRecorder()
@@ -276,30 +373,74 @@ def run(ctx):
     cmp = lambda a, b: core.float_cmp(a, b, rtol=1e-7, atol=1e-9)
     core.lockstep(corr_a, cases_a, canon_model=core.canon_bits, cmp=cmp)
     core.lockstep(corr_b, cases_b, canon_model=core.canon_bits, cmp=cmp)
-    nt = len(corr_a.distinct) + len(corr_b.distinct)
+    # third correspondence: the complete AverageLearner1D against Avg1DFull.lean, bit for bit
+    from harness import a1f_drive
+    corr_c = core.Corr("AverageLearner1D~Avg1DFull.lean")
+    params = [a1f_drive.gen_case(ctx.rng, ctx.rng.choice([50, 80, 120])) for _ in range(ctx.n(160, 2400))]
+    cases_c = []
+    for r in core.pmap(full_case, params):
+        for k, v in r["stats"].items():
+            corr_c.count(k, v)
+        for k in ("loss", "noise", "fn", "style"):
+            corr_c.count(f"{k}:{r['meta'][k]}")
+        for k in ("delta", "min_samples", "max_samples", "neighbor_sampling", "alpha", "min_error"):
+            corr_c.count(f"{k}={r['meta'][k]}")
+        seen = set()
+        for f in r["fails"]:
+            if f[0] not in seen:
+                seen.add(f[0])
+                failures.append({"clause": f[0], "signature": f"C16.{f[0]}", "detail": f[1],
+                                 "replay": {"case": r["meta"], "lines": r["lines"] if len(r["lines"]) < 400 else None}})
+        if r["skipped"]:
+            corr_c.count("skipped:" + r["skipped"])      # two different sqrt corrections for one argument in ONE operation
+            continue
+        cases_c.append(r)
+    core.lockstep(corr_c, cases_c, canon_model=core.canon_bits, shards=8)
+    nt = len(corr_a.distinct) + len(corr_b.distinct) + len(corr_c.distinct)
     return core.conclude(
-        ctx, proof, [corr_a, corr_b], failures,
+        ctx, proof, [corr_a, corr_b, corr_c], failures,
         rule="seeded tell sequences with repeated, missing and out-of-order seeds over 5 value distributions "
              "(dyadic, normal, constant, 12-decade range, zero-mean), tolerance and min/max-sample settings, interleaved "
              "asks, pending marks, discards (AverageLearner) and single/batched tells on a 9-point grid (AverageLearner1D); "
+             "full AverageLearner1D histories (runner-like ask/out-of-order tell rounds, unsuggested samples, tell_many, "
+             "tell_many_at_point, pending marks, discards, re-tells; 5 loss functions, noise-free/gaussian/heteroscedastic/"
+             "dyadic/heavy noise, several delta/alpha/min_samples/max_samples/neighbor_sampling/min_error); "
              "non-trivial = distinct op-line sequence",
-        samples=[cases_a[0]["lines"][:6], cases_b[0]["lines"][:6]],
-        evaluations=len(cases_a) + len(cases_b), distinct=nt,
+        samples=[cases_a[0]["lines"][:6], cases_b[0]["lines"][:6], [l[:160] for l in cases_c[0]["lines"][:6]]],
+        evaluations=len(cases_a) + len(cases_b) + len(cases_c), distinct=nt,
         explanation="Avg.lean / Avg1D.lean are proved about over ordered fields (moments, variance identity, sample std, loss "
                     "formula, fresh seeds with pigeonhole; per-abscissa mean/count/error, batch = single, under-sampled set) and "
                     "executed at Float against the real learners; float results compared to 1e-7 relative (python sum() is "
-                    "compensated, x**2 and **0.5 go through pow, np.mean is pairwise)",
-        trusted=core.COMMON_TRUSTED + ["hand-written models Avg.lean, Avg1D.lean", "scipy.stats.t.ppf (recorded oracle)",
-                                       "sqrt: theorems assume sqrt(x)^2 = x for x >= 0", "IEEE rounding is outside the theorems"],
+                    "compensated, x**2 and **0.5 go through pow, np.mean is pairwise). Avg1DFull.lean = the complete "
+                    "AverageLearner1D (Learner1D state + samples + distances + rescaled errors; ask with its three branches): "
+                    "proved for every op list: the ask rule, rescaled_error sorted / head largest / below max_samples, "
+                    "rescaled_error[x] = error[x] / min neighbouring distance, distances and data current, sampling part = "
+                    "Avg1D run (so C16.g-k carry over); executed at Float against real histories and compared BIT FOR BIT "
+                    "(data, error, rescaled_error in container order, counts, samples, under-sampled set, pending, both loss "
+                    "tables, both losses, ask points and improvements, branch taken); the only tolerance (1e-9 relative) is on "
+                    "the recorded corrections of sqrt/hypot where python's pow / compensated sum / math.hypot differ from "
+                    "sqrt(naive fold) by ulps",
+        trusted=core.COMMON_TRUSTED + ["hand-written models Avg.lean, Avg1D.lean, Avg1DFull.lean (on top of L1D.lean)",
+                                       "scipy.stats.t.ppf (recorded oracle)", "the loss function (recorded oracle, as for C01)",
+                                       "sqrt: theorems assume sqrt(x)^2 = x for x >= 0; math.hypot and (..)**0.5 enter the "
+                                       "full model as arbitrary functions (theorems hold for every one)",
+                                       "IEEE rounding is outside the theorems",
+                                       "sortedcontainers: SortedKeyList.add = bisect_right (ties in insertion order), a list "
+                                       "reverse iterator over fewer than 2000 entries (one sub-list)"],
         assumptions=["in-bounds abscissae", "batched tells carry seeds not yet present at that abscissa (the batch path "
                      "double counts otherwise; outside 'telling them one by one' equivalence)"],
-        partial=["the Learner1D-inherited loss machinery and the rescaled-error ordering of AverageLearner1D.ask are not modelled"],
+        partial=PARTIAL,
     )
 
 
 def replay(ctx, path):
     import json
     d = json.load(open(path)).get("replay")
+    if d.get("case") is not None:          # a full AverageLearner1D history: re-run the real learner, then the model
+        r = full_case(d["case"])
+        for f in r["fails"]:
+            print("oracle:", f)
+        d = {"lines": r["lines"]}
     for l, o in zip(d["lines"], [core.canon_bits(x) for x in core.run_driver(d["lines"])]):
         print(l, "\n   model", o)
     return 0
